@@ -195,8 +195,13 @@ def run(module, tier, seed, nproc=16):
             known_hits.setdefault(f["sig"], (k, f))
         else:
             violations.append(f)
-    if nondet:
+    if nondet and not violations and not known_hits:
+        # nothing that failed during the exploration fails again when replayed alone: the harness, not the library, is in doubt
         return 2
+    if nondet:
+        # some failures did not reproduce (their symptom depends on memory the call should not have read, say) while others fail
+        # on every replay: the reproducible ones are reported; the others stay visible above but are not counted
+        print("NOTE property=%s %d failing case(s) did not fail again on replay and are not reported as violations; %d did, every time" % (prop, nondet, len(violations) + len(known_hits)))
     os.makedirs(os.path.join(OUTDIR, "replays"), exist_ok=True)
     for sig, (k, f) in known_hits.items():
         print("KNOWN-FINDING: property=%s %s [%s]" % (prop, k.get("what", sig), sig))
